@@ -10,6 +10,10 @@ _abort_pending = False
 # finalizers (`__del__()`), so raising `ConductorAbort` from the signal handler
 # is not always enough; `raise_if_abort_requested()` lets callers re-check.
 _abort_requested = False
+# Set once `ConductorAbort` has been raised. From then on Conductor is unwinding
+# and cleaning up (e.g., terminating the tasks that are still running); a
+# further SIGINT/SIGTERM must not interrupt that clean-up half-way.
+_abort_raised = False
 
 
 def register_signal_handlers():
@@ -18,11 +22,15 @@ def register_signal_handlers():
 
 
 def _terminate_handler(sig, frame):
-    global _abort_pending, _abort_requested  # pylint: disable=global-statement
+    # pylint: disable-next=global-statement
+    global _abort_pending, _abort_requested, _abort_raised
     _abort_requested = True
+    if _abort_raised:
+        return
     if _defer_depth > 0:
         _abort_pending = True
         return
+    _abort_raised = True
     raise ConductorAbort()
 
 
@@ -33,7 +41,8 @@ def defer_abort():
     around code that must not be interrupted half-way (e.g., between starting a
     process and recording that it was started).
     """
-    global _defer_depth, _abort_pending  # pylint: disable=global-statement
+    # pylint: disable-next=global-statement
+    global _defer_depth, _abort_pending, _abort_raised
     _defer_depth += 1
     try:
         yield
@@ -41,6 +50,7 @@ def defer_abort():
         _defer_depth -= 1
         if _defer_depth == 0 and _abort_pending:
             _abort_pending = False
+            _abort_raised = True
             raise ConductorAbort()
 
 
